@@ -55,7 +55,7 @@ type contender struct {
 type scenario struct {
 	Name       string
 	Backend    string // posixmem | mem
-	Init       string // free | dead | dead-nofile
+	Init       string // free | dead | dead-nofile | noroot
 	Contenders []contender
 	Bound      int
 	Hold       time.Duration
@@ -86,6 +86,7 @@ type world struct {
 	beat      time.Time       // newest sign of life of the present incarnation: its creation or its owner's latest heart-beat write
 	forfeited []bool          // the contender's lock was legitimately judged stale and removed in its present cycle (see afterOp)
 	lookAge   []time.Duration // age of that sign of life at the latest operation of the contender's staleness evaluations
+	relStart  []time.Time     // when each contender's current Unlock call began
 	judging   []bool          // the contender is inside a staleness evaluation (IsStale entered; no Unlock / Mkdir / removal since)
 	lastLook  []int           // incarnation present at the latest backend operation of the contender's staleness evaluations
 	stale     []int           // IsStale evaluations of each contender since its Mkdir last said "exists"
@@ -151,6 +152,12 @@ func (w *world) afterOp(op *vfsx.Op) {
 				} else {
 					sig += ":own-lock=never-removed"
 				}
+			}
+			if strings.HasPrefix(w.site(x), "Unlock") && time.Since(w.relStart[x]) > 100*time.Millisecond && w.x.Delays() == 0 {
+				// the releasing call has been going on for more than two heart-beat periods (its heart beat stopped when
+				// it began) by the code's own timers — no stall was injected by the schedule: whoever found the lock
+				// silent for that long took it over rightfully, and is now the victim
+				sig += ":release-older-than-two-periods"
 			}
 			if strings.HasPrefix(w.site(x), "Acquire") {
 				// how many times the remover re-evaluated staleness after the first verdict, before it removed: the pinned
@@ -225,7 +232,7 @@ func newBackend(x *gosim.Exec, kind string) afero.Fs {
 func body(sc scenario) func(x *gosim.Exec) {
 	return func(x *gosim.Exec) {
 		n := len(sc.Contenders)
-		w := &world{x: x, owner: -1, phase: make([]phase, n), api: make([]string, n), ownGone: make([]bool, n), acquired: make([]int, n), outcome: make([]string, n), sawInc: make([]int, n), lost: make([]bool, n), stale: make([]int, n), judging: make([]bool, n), lastLook: make([]int, n), forfeited: make([]bool, n), lookAge: make([]time.Duration, n)}
+		w := &world{x: x, owner: -1, phase: make([]phase, n), api: make([]string, n), ownGone: make([]bool, n), acquired: make([]int, n), outcome: make([]string, n), sawInc: make([]int, n), lost: make([]bool, n), stale: make([]int, n), judging: make([]bool, n), lastLook: make([]int, n), forfeited: make([]bool, n), relStart: make([]time.Time, n), lookAge: make([]time.Duration, n)}
 		verifrt.EventHook = func(name string) {
 			th := x.Current()
 			if th == nil || th.Client < 0 || th.Client >= n {
@@ -241,7 +248,9 @@ func body(sc scenario) func(x *gosim.Exec) {
 		}
 		x.User = w
 		backend := newBackend(x, sc.Backend)
-		_ = backend.MkdirAll(lockRoot, 0o755)
+		if sc.Init != "noroot" { // "noroot": the directory the lock lives in does not exist (yet)
+			_ = backend.MkdirAll(lockRoot, 0o755)
+		}
 		old := time.Now().Add(-10 * time.Second)
 		switch sc.Init {
 		case "dead":
@@ -280,7 +289,13 @@ func body(sc scenario) func(x *gosim.Exec) {
 					case aLock:
 						// the heart beat lives on a context derived from this one: it is released only after the unlock
 						// (cancelling it right after the acquire would stop the heart beat — and race with its start)
-						ctx, cancel := context.WithTimeout(x.Ctx(), 80*time.Millisecond)
+						patience := 80 * time.Millisecond
+						if sc.Hold > 80*time.Millisecond {
+							// outlasts the other's hold and release; not a multiple of the 10 ms between two lock tries (two
+							// timers firing at the same instant are not ordered by anything the explorer owns)
+							patience = 2*sc.Hold + 303*time.Millisecond
+						}
+						ctx, cancel := context.WithTimeout(x.Ctx(), patience)
 						defer cancel()
 						err = lock.Lock(ctx)
 					case aLockTimeout:
@@ -299,6 +314,7 @@ func body(sc scenario) func(x *gosim.Exec) {
 					x.Gate(i, fmt.Sprintf("c%d: begin release", i)) // a harness event the monitor reads: it is a scheduled step
 					w.phase[i] = pReleasing
 					w.api[i] = "Unlock"
+					w.relStart[i] = time.Now()
 					w.ownGone[i] = false
 					x.Note("c%d begins release", i)
 					err = lock.Unlock(x.Ctx())
@@ -334,6 +350,11 @@ func scenarios() []scenario {
 		if strings.Contains(name, "hold40") {
 			hold = 40 * time.Millisecond // longer than Unlock's maximal retry jitter (25 ms)
 		}
+		if strings.Contains(name, "hold147") {
+			// longer than two heart-beat periods plus a lock try, and ending at the very instant the holder's fourth heart
+			// beat is due: the beat is "in flight" when the release begins
+			hold = 147 * time.Millisecond
+		}
 		var stall time.Duration
 		if strings.Contains(name, "stall110") {
 			stall = 110 * time.Millisecond
@@ -355,6 +376,9 @@ func scenarios() []scenario {
 	add("dead-nofile/2xTry-override", "posixmem", "dead-nofile", 2, T(true), T(true))
 	add("dead/Lock-override+Lock-override P1", "posixmem", "dead", 1, L(true), L(true))
 	add("free/Try+Try-override stall110", "posixmem", "free", 2, T(false), T(true))
+	add("free/Try+Lock-override hold147 P1", "posixmem", "free", 1, T(false), L(true))
+	add("noroot/2xTry", "posixmem", "noroot", 2, T(false), T(false))
+	add("noroot/Try+Lock-override(os)", "os", "noroot", 2, T(false), L(true))
 	add("free/2xTry(mem)", "mem", "free", 2, T(false), T(false))
 	add("free/2xTry(os)", "os", "free", 2, T(false), T(false))
 	add("dead/Try-override+Try(os)", "os", "dead", 2, T(true), T(false))
@@ -376,6 +400,7 @@ func scenarios() []scenario {
 		add("free/Lock+Lock(mem)", "mem", "free", 2, L(false), L(false))
 		add("dead/2xTry-override(mem)", "mem", "dead", 2, T(true), T(true))
 		add("dead/2xTry-override stall110", "posixmem", "dead", 2, T(true), T(true))
+		add("free/Try+Lock-override hold147", "posixmem", "free", 2, T(false), L(true))
 		add("free/Lock+Lock-override stall110", "posixmem", "free", 2, L(false), L(true))
 	}
 	if f := os.Getenv("VERIF_SCENARIO"); f != "" {
